@@ -133,18 +133,14 @@ def parse_tree(raw: bytes) -> tuple[int, list[Entry]]:
         ext, pos = _cstring(raw, pos, end, 'extension')
         if ext is None:
             break
-        n_folders = 0
         while True:
             folder, pos = _cstring(raw, pos, end, 'folder')
             if folder is None:
                 break
-            n_folders += 1
-            n_files = 0
             while True:
                 stem, pos = _cstring(raw, pos, end, 'file')
                 if stem is None:
                     break
-                n_files += 1
                 if pos + ENTRY.size > end:
                     raise VPKDecodeError(f'entry of {join_name(folder, stem, ext)!r} at byte {pos} runs past the tree end {end}')
                 crc, preload_len, arch_index, offset, length, term = ENTRY.unpack_from(raw, pos)
@@ -160,10 +156,6 @@ def parse_tree(raw: bytes) -> tuple[int, list[Entry]]:
                     raise VPKDecodeError(f'file {join_name(folder, stem, ext)!r} is listed twice in the tree')
                 seen.add(key)
                 entries.append(Entry(folder, stem, ext, crc, preload, arch_index, offset, length))
-            if n_files == 0:
-                raise VPKDecodeError(f'folder {folder!r} of extension {ext!r} lists no file')
-        if n_folders == 0:
-            raise VPKDecodeError(f'extension {ext!r} lists no folder')
     if pos != end:
         raise VPKDecodeError(f'tree ends at byte {pos} but the header says {end} (tree_size={tree_size})')
     return tree_size, entries
@@ -211,7 +203,12 @@ def read_entries(dir_path: str, check_crc: bool = True) -> list[Entry]:
 
 def read_vpk(dir_path: str, check_crc: bool = True) -> dict[str, bytes]:
     """name ('folder/stem.ext') -> content, recovered from the raw files."""
-    return {e.name: e.data for e in read_entries(dir_path, check_crc)}  # type: ignore[misc]
+    res: dict[str, bytes] = {}
+    for e in read_entries(dir_path, check_crc):
+        if e.name in res:
+            raise VPKDecodeError(f'two tree entries spell the same path {e.name!r}')
+        res[e.name] = e.data  # type: ignore[assignment]
+    return res
 
 
 def read_vpk_keys(dir_path: str, check_crc: bool = True) -> dict[tuple[str, str, str], bytes]:
